@@ -1,11 +1,11 @@
 """C20 - map_mutations returns a most-parsimonious placement that reproduces the data."""
 LEVEL = "other"
-EXPLANATION = ("Minimality is Hartigan's theorem, out of reach of per-function SMT obligations. Bounded: for seeded small trees "
+EXPLANATION = ("Proved (64-bit sets as bit-vectors, complete): set_bit, bit_is_set, get_smallest_set_bit (lowest set bit: that bit set and all lower bits clear). Minimality is Hartigan's theorem, out of reach of per-function SMT obligations. Bounded: for seeded small trees "
                "(multiple roots, unary nodes, internal samples, polytomies) x sampled genotype vectors over <= 3 alleles with "
                "missing data x free / fixed ancestral state (also outside the observed alleles) the result reproduces every "
                "non-missing genotype, lists parents before children with the nearest mutation above as parent, and has exactly "
                "the minimum number of changes computed by an independent Sankoff DP.")
-C_FUNCS = []
+C_FUNCS = [("trees.c", "set_bit"), ("trees.c", "bit_is_set"), ("trees.c", "get_smallest_set_bit")]
 BOUNDED = [{"name": "parsimony_vs_dp", "module": "standins.c20_parsimony", "timeout": 900}]
 UNVERIFIED = ["tsk_tree_map_mutations (bounded only)"]
 ASSUMPTIONS = []
